@@ -5,6 +5,7 @@
 #include "model.hh"
 #include "calls.hh"
 #include "oracle_fan.hh"
+#include <OpenVolumeMesh/Attribs/StatusAttrib.hh>
 
 namespace vf {
 
@@ -27,6 +28,7 @@ struct EngCfg {
     int max_v = 14, max_e = 40, max_f = 30, max_c = 8;
     int fan_bias = 0;         // out of 10 build steps: build an edge fan (ring/chain of tets around an edge)
     int block_bias = 2;       // hex kernel: out of 10 build steps add a block of hexes
+    bool allow_status_gc = false; // C04: StatusAttrib::garbage_collection with handle tracking / manifoldness
     bool chk_fan = false;     // C09 oracles after every step
 };
 
@@ -585,6 +587,95 @@ struct Engine {
         if (deferred()) model.gc();
         rescan();
     }
+    // StatusAttrib::garbage_collection: status marks on random subsets of all four kinds, optional handle
+    // tracking (all four handle kinds; incl. empty lists, duplicates, invalid handles) and manifoldness pass
+    void op_status_gc() {
+        ovm::StatusAttrib st(mesh);
+        std::ostringstream o; o << "status_gc(";
+        int density = (int)rng.below(4);   // 0: nothing marked
+        auto mark = [&](int kind, const std::vector<int> &l) {
+            std::vector<int> m;
+            for (int h : l) if (density && (int)rng.below(8) < density) m.push_back(h);
+            return m;
+        };
+        auto mv = mark(0, live_v()), me = mark(1, live_e()), mf = mark(2, live_f()), mc = mark(3, live_c());
+        for (int h : mv) st[VertexHandle(h)].set_deleted(true);
+        for (int h : me) st[EdgeHandle(h)].set_deleted(true);
+        for (int h : mf) st[FaceHandle(h)].set_deleted(true);
+        for (int h : mc) st[CellHandle(h)].set_deleted(true);
+        bool manifold = rng.chance(1, 3);
+        int track = (int)rng.below(3);   // 0 none (plain overload), 1 some, 2 many
+        o << "marked v" << ivec(mv) << " e" << ivec(me) << " f" << ivec(mf) << " c" << ivec(mc) << ",manifold=" << manifold << ",track=" << track << ")[" << cfgclass() << "]";
+        ctx.op(o.str());
+        ctx.cnt.add("op.status_gc"); if (manifold) ctx.cnt.add("op.status_gc.manifold");
+        // model: closure of the marks, then the pending deletions are collected
+        for (int h : mv) model.del_v(vid(h), true);
+        for (int h : me) model.del_e(eid(h), true);
+        for (int h : mf) model.del_f(fid(h), true);
+        for (int h : mc) model.del_c(cid(h), true);
+        if (manifold) {
+            for (int i = 0; i < (int)model.f.size(); ++i) if (model.f[i].live) {
+                bool used = false;
+                for (auto &c : model.c) if (c.live) for (int hf : c.hfs) if ((hf >> 1) == i) used = true;
+                if (!used) model.del_f(i, true);
+            }
+            for (int i = 0; i < (int)model.e.size(); ++i) if (model.e[i].live) {
+                bool used = false;
+                for (auto &f : model.f) if (f.live) for (int h : f.hes) if ((h >> 1) == i) used = true;
+                if (!used) model.del_e(i, true);
+            }
+            for (int i = 0; i < (int)model.v.size(); ++i) if (model.v[i]) {
+                bool used = false;
+                for (auto &e : model.e) if (e.live && (e.a == i || e.b == i)) used = true;
+                if (!used) model.del_v(i, true);
+            }
+        }
+        model.gc();
+        // tracked handles: remember the id behind each one
+        std::vector<VertexHandle> tv; std::vector<HalfEdgeHandle> the; std::vector<HalfFaceHandle> thf; std::vector<CellHandle> tc;
+        std::vector<long long> iv, ihe, ihf, ic;   // expected id or -1 (entity removed / handle invalid)
+        auto fill = [&](int n, auto &vec, auto &ids, auto idf, auto delf) {
+            if (!track) return;
+            int cntk = track == 1 ? (int)rng.below(3) : (int)rng.below(2 * n + 3);
+            for (int i = 0; i < cntk; ++i) {
+                int h = (n == 0 || rng.chance(1, 10)) ? -1 : (int)rng.below(n);   // duplicates arise naturally
+                vec.emplace_back(h);
+                ids.push_back(h < 0 || delf(h) ? -1 : idf(h));
+            }
+        };
+        fill(s.nv, tv, iv, [&](int h) { return vid(h); }, [&](int h) { return (bool)s.vdel[h]; });
+        fill(2 * s.ne, the, ihe, [&](int h) { return heid(h); }, [&](int h) { return (bool)s.edel[h >> 1]; });
+        fill(2 * s.nf, thf, ihf, [&](int h) { return hfid(h); }, [&](int h) { return (bool)s.fdel[h >> 1]; });
+        fill(s.nc, tc, ic, [&](int h) { return cid(h); }, [&](int h) { return (bool)s.cdel[h]; });
+        std::vector<VertexHandle *> pv; for (auto &h : tv) pv.push_back(&h);
+        std::vector<HalfEdgeHandle *> phe; for (auto &h : the) phe.push_back(&h);
+        std::vector<HalfFaceHandle *> phf; for (auto &h : thf) phf.push_back(&h);
+        std::vector<CellHandle *> pc; for (auto &h : tc) pc.push_back(&h);
+        bool was_deferred = deferred();
+        if (track) st.garbage_collection(pv, phe, phf, pc, manifold); else st.garbage_collection(manifold);
+        rescan();
+        VF_CHECK(deferred() == was_deferred, "oracle:status_gc.mode", "deferred deletion mode changed by garbage_collection");
+        ctx.cnt.add("tracked-handles", (long long)(tv.size() + the.size() + thf.size() + tc.size()));
+        auto verify = [&](const char *what, auto &vec, auto &ids, int n, auto idf, auto livef) {
+            for (size_t i = 0; i < vec.size(); ++i) {
+                long long id = ids[i];
+                bool survives = id >= 0 && livef(id);
+                if (survives) {
+                    ctx.cnt.add("tracked.survivors");
+                    VF_CHECK(vec[i].is_valid() && vec[i].idx() < n, "oracle:status_gc.tracked-lost", what << " handle of surviving id " << id << " became " << vec[i].idx());
+                    VF_CHECK(idf(vec[i].idx()) == id, "oracle:status_gc.tracked-wrong", what << " handle now designates id " << idf(vec[i].idx()) << " instead of " << id);
+                } else {
+                    ctx.cnt.add("tracked.removed");
+                    VF_CHECK(!vec[i].is_valid(), "oracle:status_gc.tracked-dangling", what << " handle of a removed entity is still valid: " << vec[i].idx());
+                }
+            }
+        };
+        verify("vertex", tv, iv, s.nv, [&](int h) { return (long long)vid(h); }, [&](long long id) { return (bool)model.v[id]; });
+        verify("halfedge", the, ihe, 2 * s.ne, [&](int h) { return (long long)heid(h); }, [&](long long id) { return model.e[id >> 1].live; });
+        verify("halfface", thf, ihf, 2 * s.nf, [&](int h) { return (long long)hfid(h); }, [&](long long id) { return model.f[id >> 1].live; });
+        verify("cell", tc, ic, s.nc, [&](int h) { return (long long)cid(h); }, [&](long long id) { return model.c[id].live; });
+        VF_CHECK(!mesh.needs_garbage_collection(), "oracle:status_gc.pending-left", "pending deletions remain after garbage_collection");
+    }
     void op_clear() {
         bool cp = rng.chance(1, 2);
         ctx.op(std::string("clear(") + (cp ? "true" : "false") + ")");
@@ -874,6 +965,7 @@ struct Engine {
         }
         if ((r -= cfg.w_misc) < 0) {
             int k = (int)rng.below(12);
+            if (cfg.allow_status_gc && rng.chance(1, 2)) { op_status_gc(); return; }
             if (k < 3 && cfg.allow_gc) op_gc();
             else if (k < 6 && cfg.allow_toggle_bu) op_toggle_bu();
             else if (k < 8 && cfg.allow_modes) op_mode();
